@@ -297,6 +297,40 @@ class Summaries:
         m = re.match(r"^(?:rpds::)?RedBlackTreeMap::(\w+)$", n)
         if m:
             return self.pmap(st, m.group(1), A, name)
+        # ---------- short-circuit predicates over slice iterators (closure must evaluate without forking)
+        m = re.match(r"^<(Rev<)?(?:std::slice::)?Iter(?:Mut)?<.*>>? as Iterator>::(any|all|position|find_map|find)::<", name.strip()) if False else \
+            re.match(r"^<(Rev<)?(?:std::slice::)?Iter(?:Mut)?<.*?>>? as Iterator>::(any|all)$", n)
+        if m:
+            it = A[0]
+            itv = self.deref_val(st, it) if isinstance(it, Ref) else it
+            want = m.group(2)
+            result = (want == "all")
+            while True:
+                o = self.slice_iter(st, n, "next", [itv])
+                if self.variant_of(st, o) == "None":
+                    break
+                elem = o.payload.fields[0]
+                alts = self.run_closure(st, A[1], [elem])
+                if len(alts) != 1 or alts[0][0] is not st:
+                    raise Unsupported("iterator predicate closure forked")
+                v = z3.simplify(alts[0][1].t)
+                if not (z3.is_true(v) or z3.is_false(v)):
+                    raise Unsupported("iterator predicate with a symbolic result")
+                if want == "any" and z3.is_true(v):
+                    result = True
+                    break
+                if want == "all" and z3.is_false(v):
+                    result = False
+                    break
+            return Bool(z3.BoolVal(result))
+        # ---------- for x in &slice / &vec
+        if re.match(r"^<&(?:mut )?\[.*\] as IntoIterator>::into_iter$", n) or re.match(r"^<&(?:mut )?(?:std::vec::)?Vec<.*> as IntoIterator>::into_iter$", n):
+            return Struct("SliceIter", {0: A[0], 1: 0, 2: 0})
+        # ---------- slice iterators over the explicit part of a vector
+        m = re.match(r"^<(?:std::slice::)?Iter(?:Mut)?<.*> as (?:Iterator|DoubleEndedIterator|IntoIterator)>::(next|next_back|nth|nth_back|rev|into_iter)$", n) or \
+            re.match(r"^<Rev<(?:std::slice::)?Iter(?:Mut)?<.*>> as (?:Iterator|IntoIterator)>::(next|nth|into_iter)$", n)
+        if m:
+            return self.slice_iter(st, n, m.group(1), A)
         # ---------- Rc
         if n in ("Rc::new", "std::rc::Rc::new", "Box::new", "std::boxed::Box::new"):
             return Ref(Box(A[0], name=ex.fresh_name("heap")))
@@ -717,7 +751,11 @@ class Summaries:
             # of a relational lemma see the same map content
             ident = cell_ident(ex, key)
             base_id = str(m0.base)
-            tagn = "%s[%s]" % (base_id, ident) if ident is not None else ex.fresh_name("pmap_val")
+            if ident is None:
+                cellv = mk_sym(ex.tc, "cell::Cell", ex.fresh_name("pmap_val"))
+                o2 = self.mk_enum("Option<&cell::Cell>", "Some", Ref(Box(cellv, name=ex.fresh_name("pmap_cell"))))
+                return Multi(self.two_way(st, self.option("&cell::Cell"), o2))
+            tagn = "%s[%s]" % (base_id, ident)
             has = z3.Bool("has!" + tagn)
             ch, cn = ex.feasible(st, has), ex.feasible(st, z3.Not(has))
             if ch and cn:
@@ -767,6 +805,7 @@ class Summaries:
         ex = self.ex
         m = re.match(r"^(?:std::vec::)?Vec::(\w+)$", n) or re.match(r"^core::slice::(?:<impl \[.*\]>::)?(\w+)$", n) or re.match(r"^<\[.*\]>::(\w+)$", n)
         idxm = re.match(r"^<(?:std::vec::)?Vec<(.*)> as (Index|IndexMut)<(.*)>>::(index|index_mut)$", n) or \
+            re.match(r"^<(?:rpds::)?Vector<(.*)> as (Index|IndexMut)<(.*)>>::(index|index_mut)$", n) or \
             re.match(r"^<\[(.*)\] as (Index|IndexMut)<(.*)>>::(index|index_mut)$", n)
         if not m and not idxm:
             return None
@@ -779,7 +818,7 @@ class Summaries:
                     raise Unsupported("index into slice view")
                 idx = A[1]
                 self.bounds_check(st, z3.ULT(idx.t, v.len_term()), "index out of bounds in " + n)
-                if v.slots is not None and not v.items:
+                if v.slots is not None and self.in_slotted_part(st, v, idx.t):
                     return Ref(r.box, r.path + (ex.slot_step(st, v, idx.t),), idxm.group(4) == "index_mut")
                 j = ex.vec_index(st, v, idx.t)
                 return Ref(r.box, r.path + (("e", j + v.low),), idxm.group(4) == "index_mut")
@@ -840,7 +879,7 @@ class Summaries:
                 raise_fork([(inb, None, "in bounds"), (z3.Not(inb), None, "out of bounds")])
             if not ci:
                 return self.option("&" + v.elem_ty)
-            if v.slots is not None and not v.items:
+            if v.slots is not None and self.in_slotted_part(st, v, idx.t):
                 return self.option("&" + v.elem_ty, Ref(r.box, r.path + (ex.slot_step(st, v, idx.t),), meth == "get_mut"))
             j = ex.vec_index(st, v, idx.t)
             return self.option("&" + v.elem_ty, Ref(r.box, r.path + (("e", j + v.low),), meth == "get_mut"))
@@ -891,8 +930,66 @@ class Summaries:
             return Unit()
         if meth in ("iter", "iter_mut"):
             return Struct("SliceIter", {0: Ref(Box(SliceView(r, 0, None) if v.prefix is None else whole_view(r), name=ex.fresh_name("slice")), ()),
-                                        1: Int(z3.BitVecVal(0, 64), 64, False)})
+                                        1: 0, 2: 0})
         return None
+
+    def slice_iter(self, st, n, meth, A):
+        ex = self.ex
+        it = A[0]
+        itv = self.deref_val(st, it) if isinstance(it, Ref) else it
+        if meth in ("into_iter",):
+            return itv
+        reversed_ = False
+        if isinstance(itv, Struct) and itv.ty == "Rev":
+            reversed_ = True
+            itv = itv.fields[0]
+        if meth == "rev":
+            return Struct("Rev", {0: itv})
+        if not (isinstance(itv, Struct) and itv.ty == "SliceIter"):
+            raise Unsupported("iterator value %r" % (itv,))
+        svr = itv.fields[0]
+        sv = ex.get_at(st, svr.box, svr.path)
+        if isinstance(sv, Vec):
+            base_v, base_r, start, end = sv, svr, 0, None
+            if sv.prefix is not None:
+                raise Unsupported("iteration over a vector with a symbolic part")
+        else:
+            if sv.whole:
+                raise Unsupported("iteration over a vector with a symbolic part")
+            base_v, base_r = self.vec_of(st, sv.base)
+            start, end = sv.start, sv.end
+        items_n = (len(base_v.items) if end is None else end) - start
+        front, back = itv.fields[1], itv.fields[2]
+        remaining = items_n - front - back
+        k = 0
+        if meth in ("nth", "nth_back"):
+            k = ex.concrete_int(st, A[1].t, candidates=list(range(0, max(remaining, 0) + 1)), what="iterator skip count")
+        from_back = (meth in ("next_back", "nth_back")) != reversed_
+        ety = base_v.elem_ty
+        if k >= remaining:
+            if meth in ("nth", "nth_back"):
+                if from_back:
+                    itv.fields[2] = back + remaining
+                else:
+                    itv.fields[1] = front + remaining
+            return self.option("&" + ety)
+        if from_back:
+            pos = start + items_n - back - 1 - k
+            itv.fields[2] = back + k + 1
+        else:
+            pos = start + front + k
+            itv.fields[1] = front + k + 1
+        return self.option("&" + ety, Ref(base_r.box, base_r.path + (("e", pos + base_v.low),)))
+
+    def in_slotted_part(self, st, v, idx_t):
+        """does index idx address the symbolic (slotted) bottom part of v rather than an explicit item on top?"""
+        if not v.items:
+            return True
+        below = z3.ULT(idx_t, v.prefix[1])
+        cb, ca = self.ex.feasible(st, below), self.ex.feasible(st, z3.Not(below))
+        if cb and ca:
+            raise_fork([(below, None, "index in the symbolic part"), (z3.Not(below), None, "index in the explicit part")])
+        return cb
 
     def bounds_check(self, st, ok, msg):
         ex = self.ex
@@ -929,7 +1026,7 @@ class Summaries:
                 raise Unsupported("slice last() into symbolic prefix")
             return self.option("&" + base_v.elem_ty)
         if meth in ("iter", "iter_mut"):
-            return Struct("SliceIter", {0: Ref(r.box, r.path), 1: Int(z3.BitVecVal(0, 64), 64, False)})
+            return Struct("SliceIter", {0: Ref(r.box, r.path), 1: 0, 2: 0})
         raise Unsupported("slice method %s" % n)
 
     # ------------------------------------------------------------ ranges
@@ -999,6 +1096,37 @@ def cell_ident(ex, key):
         break
     if isinstance(k, Enum) and k.origin:
         return k.origin
+    return canon(ex, k)
+
+
+def canon(ex, v, depth=0):
+    """deterministic printed identity of a value (for naming uninterpreted lookups); None if not available"""
+    if depth > 4:
+        return None
+    if isinstance(v, (Int, Bool, Float)):
+        return str(z3.simplify(v.t))
+    if isinstance(v, Opaque):
+        return str(v.term)
+    if isinstance(v, Unit):
+        return "()"
+    if isinstance(v, Ref):
+        return canon(ex, ex.get_at(None, v.box, v.path), depth + 1)
+    if isinstance(v, Enum):
+        if v.variant is None:
+            return v.origin
+        if v.payload is None or not v.payload.fields:
+            return "%s" % v.variant if v.origin is None else "%s:%s" % (v.origin, v.variant)
+        parts = [canon(ex, v.payload.fields[k], depth + 1) for k in sorted(v.payload.fields, key=str)]
+        if any(p is None for p in parts):
+            return None
+        return "%s(%s)" % (v.variant, ",".join(parts))
+    if isinstance(v, Struct):
+        if not v.fields:
+            return v.origin
+        parts = [canon(ex, v.fields[k], depth + 1) for k in sorted(v.fields, key=str)]
+        if any(p is None for p in parts):
+            return None
+        return "{%s}" % ",".join(parts)
     return None
 
 
